@@ -656,6 +656,7 @@ func (e Engine) Execute(c *core.Ctx) {
 	}
 	s.byzSubmit(Step{Op: "submit", Mode: "all"})
 	s.byzSubmit(Step{Op: "submit", Mode: "validlooking"})
+	s.byzSubmit(Step{Op: "submit", Mode: "clonesig"})
 	s.boundary()
 }
 
@@ -687,6 +688,33 @@ func (s *sim) byzSubmit(st Step) {
 			if m.v.Accept && s.cur.Hash().IsEqual(m.v.ProposalHash) && blockchain.VoteCheck(&v) == nil {
 				ms = append(ms, m)
 			}
+		}
+	case "clonesig":
+		// ONE genuine accept vote, then copies of it whose Signer field names
+		// every other voting arbiter while the signature bytes stay the same
+		first := -1
+		for _, i := range s.members {
+			if s.canVote(i) {
+				first = i
+				break
+			}
+		}
+		if first < 0 {
+			return
+		}
+		v := payload.DPOSProposalVote{ProposalHash: s.cur.Hash(), Signer: s.keys[first].pub, Accept: true}
+		v.Sign = s.keys[first].sign(v.Data())
+		ms = append(ms, msg{v: v, l: label{signer: first, accept: true, forCur: true, sigValid: true, claims: v.ProposalHash}})
+		for _, i := range s.members {
+			if i == first || !s.canVote(i) {
+				continue
+			}
+			cl := v
+			cl.Signer = s.keys[i].pub
+			ms = append(ms, msg{v: cl, l: label{signer: i, accept: true, forCur: true, sigValid: false, claims: v.ProposalHash}})
+		}
+		if len(ms) > 1 {
+			s.c.Fault("forged-vote:signature-bytes-of-another-vote-under-each-other-signer")
 		}
 	default:
 		ms = append(ms, s.raw...)
